@@ -287,13 +287,12 @@ example : ([({ path := some [97, 47, 98], size := some 2 }, [[1, 2]]),
 
 /-- **pax records round trip** (`paxRecords_roundtrip`): the body the writer builds with
 `add_pax_attr_binary` for any list of attributes — values of any bytes, newlines, '=' and NULs included;
-keys non-empty, without '=', at most 500 bytes (the reader is only sure to see the first 512 bytes of a record; beyond that it depends on
-how much the source has buffered, `avail`), records of at most 99999999 bytes — is split by the reader's loop (`header_pax_extension`: decimal
+keys non-empty and without '=' (of any length: the reader extends its look-ahead as needed), records of at most 99999999 bytes — is split by the reader's loop (`header_pax_extension`: decimal
 length up to the blank, key up to the first '=', `length - consumed - 1` value bytes, newline) into exactly
 that list.  The parser model is compared with the real reader by the `paxbody` op of the codec engine. -/
-theorem paxRecords_roundtrip (kvs : List (List Nat × List Nat)) (h : ∀ kv ∈ kvs, LA.Pax.RecordOK kv) (avail : Nat) :
-    LA.Pax.parseRecords kvs.length (kvs.flatMap fun kv => LA.Pax.record kv.1 kv.2) avail = some kvs :=
-  LA.Pax.parseRecords_records kvs h avail
+theorem paxRecords_roundtrip (kvs : List (List Nat × List Nat)) (h : ∀ kv ∈ kvs, LA.Pax.RecordOK kv) :
+    LA.Pax.parseRecords kvs.length (kvs.flatMap fun kv => LA.Pax.record kv.1 kv.2) = some kvs :=
+  LA.Pax.parseRecords_records kvs h
 
 /-- Decimal attribute values (`uid`, `gid`, `size`, the seconds of `mtime` …): what `format_int` writes,
 `tar_atol10` (`pax_attribute_read_number`) reads back. -/
@@ -320,12 +319,12 @@ theorem decode_encode_pax_partial (path linkpath uname gname : List Nat) (uid gi
     tarAtol10 (LA.Pax.decDigits uid) = (uid : Int) ∧ tarAtol10 (LA.Pax.decDigits gid) = (gid : Int) ∧
     tarAtol10 (LA.Pax.decDigits size) = (size : Int) := by
   intro attrs
-  refine ⟨paxRecords_roundtrip attrs ?_ 0, pax_number_roundtrip uid hu, pax_number_roundtrip gid hg, pax_number_roundtrip size hs⟩
+  refine ⟨paxRecords_roundtrip attrs ?_, pax_number_roundtrip uid hu, pax_number_roundtrip gid hg, pax_number_roundtrip size hs⟩
   intro kv hkv
   have hl := hlen kv hkv
   simp only [attrs, List.mem_cons, List.mem_nil_iff, or_false] at hkv
   rcases hkv with rfl | rfl | rfl | rfl | rfl | rfl | rfl <;>
-    exact ⟨by simp, by intro c hc; simp at hc; omega, by simp, hl⟩
+    exact ⟨by simp, by intro c hc; simp at hc; omega, hl⟩
 
 /-! ### the read-back form is a fixed point (ustar) -/
 
